@@ -138,7 +138,9 @@ func (w *WaitGroup) Add(delta int) {
 		w.real.Add(delta)
 		return
 	}
-	sched.Point("WaitGroup.Add", nil)
+	if WaitGroupAddIsPoint {
+		sched.Point("WaitGroup.Add", nil)
+	}
 	w.n += delta
 	if w.n < 0 {
 		panic("sync: negative WaitGroup counter")
@@ -215,6 +217,10 @@ var poolEpoch uint64 = 1
 
 // ResetPools forgets the modelled contents of every pool (call between executions).
 func ResetPools() { poolEpoch++ }
+
+// WaitGroupAddIsPoint controls whether WaitGroup.Add/Done are scheduling points (Wait always
+// is). Scenarios whose property does not depend on the Add-vs-Wait order switch them off.
+var WaitGroupAddIsPoint = true
 
 // Debug logs every pool operation into the execution log.
 var Debug = false
